@@ -25,6 +25,23 @@ import (
 // fails the local keeps its name (the rule sees the code as written).
 
 func (w *World) obsExpandOK(u *Unit, o types.Object, def ast.Expr, use *ast.Ident) bool {
+	// relative to one site (see guardSite): only the stretch from the definition to that site has to be clean
+	if w.siteRel != nil && w.siteRelUnit == u {
+		if v, ok := w.obsUse[o]; ok && v {
+			return true
+		}
+		k := siteKey{o, w.siteRel.Block, w.siteRel.NodeIdx}
+		if v, ok := w.obsSite[k]; ok {
+			return v
+		}
+		if w.obsSite == nil {
+			w.obsSite = map[siteKey]bool{}
+		}
+		w.obsSite[k] = false
+		ok := w.obsDefOK(u, def) && w.obsRegionCleanTo(u, o, def, w.siteRel)
+		w.obsSite[k] = ok
+		return ok
+	}
 	// decided once per local, for all its uses: the same value must print the same way in a condition and at a site
 	if v, ok := w.obsUse[o]; ok {
 		return v
@@ -227,7 +244,18 @@ func (w *World) detObserver(f *types.Func, depth int) bool {
 
 // obsRegionClean: on no path does anything that can change what the definition reads lie between the definition and
 // a use of the local (paths are taken in the control-flow graph and do not pass the definition twice).
+type siteKey struct {
+	o types.Object
+	b *flow.Block
+	i int
+}
+
 func (w *World) obsRegionClean(u *Unit, o types.Object, def ast.Expr) bool {
+	return w.obsRegionCleanTo(u, o, def, nil)
+}
+
+// obsRegionCleanTo: as obsRegionClean, but when only is not nil the single "use" considered is that site.
+func (w *World) obsRegionCleanTo(u *Unit, o types.Object, def ast.Expr, only *flow.Site) bool {
 	info := u.Info()
 	roots := map[types.Object]bool{}
 	ast.Inspect(def, func(n ast.Node) bool {
@@ -335,7 +363,8 @@ func (w *World) obsRegionClean(u *Unit, o types.Object, def ast.Expr) bool {
 					hit = true
 				}
 				for _, a := range s.Call.Args {
-					if mentions(a) {
+					// a number, string or bool computed from the variable carries no reference to it
+					if mentions(a) && !plainValue(info.TypeOf(a)) {
 						hit = true
 					}
 				}
@@ -401,6 +430,9 @@ func (w *World) obsRegionClean(u *Unit, o types.Object, def ast.Expr) bool {
 				}
 			}
 		}
+	}
+	if only != nil {
+		uses = []*flow.Site{only}
 	}
 	for _, U := range uses {
 		if U.Block == D.Block && D.SameBlockBefore(U) {
@@ -657,4 +689,26 @@ func (w *World) writtenFields(f *types.Func, depth int, seen map[*types.Func]boo
 type wrSummary struct {
 	fields map[*types.Var]bool
 	known  bool
+}
+
+// plainValue: a value of this type cannot reference anyone's storage (numbers, strings, booleans, and structs/arrays
+// of such).
+func plainValue(t types.Type) bool {
+	if t == nil {
+		return false
+	}
+	switch x := t.Underlying().(type) {
+	case *types.Basic:
+		return x.Kind() != types.UnsafePointer
+	case *types.Array:
+		return plainValue(x.Elem())
+	case *types.Struct:
+		for i := 0; i < x.NumFields(); i++ {
+			if !plainValue(x.Field(i).Type()) {
+				return false
+			}
+		}
+		return true
+	}
+	return false
 }
